@@ -367,6 +367,9 @@ def run(rep):
         fals = sum(1 for a in nones if q.returns_sr(a["body"], "False"))
         rep.check(len(nones) == 4 and miss == 2 and fals == 2, "T-STR", "T-STR/none-arms", arm["sp"], "absent => Missing (x2), unconvertible => False (x2)", "%d None arms, %d Missing, %d False" % (len(nones), miss, fals))
     rep.floor("T-STR", 4)
+    # the optimised (matrix) form of a numeric comparison keeps the operand's cast kind and literal (shared with C03's L-MATRIX)
+    import core
+    core.import_rules(rep, "c03", {"L-MATRIX"}, key_prefixes=("L-MATRIX/cell-",))
     rep.extra["casts_classified"] = ncasts
     rep.exhaustive = True
     rep.assumptions.append("a UInt above i64::MAX compared with an Int constant makes every comparison false (statement's 'true only when' is met; trichotomy read per variant)")
